@@ -1,6 +1,7 @@
 """G-MAT: connector settings below the graph level (DESIGN.md 3): strategies, builder, exhaustive alphabet."""
 import itertools
 from hypothesis import strategies as st
+from .strat import ints
 
 LETTERS = []
 for _deg in ([0], [1], [2], [0, 1], [1, 2], [0, 2], {'min': 0}, {'min': 1}, {'min': 2}):
@@ -21,33 +22,33 @@ def node_strategy():
 
 @st.composite
 def mat_spec(draw, max_side=3, max_patterns=6, overrides=True):
-    n_src = draw(st.integers(1, max_side))
-    n_tgt = draw(st.integers(1, max_side))
+    n_src = draw(ints(1, max_side))
+    n_tgt = draw(ints(1, max_side))
     src = [draw(node_strategy()) for _ in range(n_src)]
     tgt = [draw(node_strategy()) for _ in range(n_tgt)]
     # feasibility bias: make the targets' demand overlap what sources can supply in most cases
-    if draw(st.integers(0, 9)) < 6:
+    if draw(ints(0, 9)) < 6:
         for t in tgt:
             if 'conns' in t and min(t['conns']) > n_src*2:
                 t['conns'] = [0]+t['conns']
     excl = []
-    if draw(st.integers(0, 2)) == 0:
-        for _ in range(draw(st.integers(1, 2))):
-            p = [draw(st.integers(0, n_src-1)), draw(st.integers(0, n_tgt-1))]
+    if draw(ints(0, 2)) == 0:
+        for _ in range(draw(ints(1, 2))):
+            p = [draw(ints(0, n_src-1)), draw(ints(0, n_tgt-1))]
             if p not in excl:
                 excl.append(p)
     par = draw(st.sampled_from([None, None, None, 1, 2, 3]))
-    n_pat = draw(st.integers(1, max_patterns))
+    n_pat = draw(ints(1, max_patterns))
     patterns = []
     for _ in range(n_pat):
         pat = {'src': {}, 'tgt': {}}
         for side, n in (('src', n_src), ('tgt', n_tgt)):
             for i in range(n):
-                r = draw(st.integers(0, 9))
+                r = draw(ints(0, 9))
                 if r < 2:
                     pat[side][str(i)] = [0]  # absent
                 elif r == 2 and overrides:
-                    pat[side][str(i)] = sorted(set(draw(st.lists(st.integers(0, 4), min_size=1, max_size=3))))
+                    pat[side][str(i)] = sorted(set(draw(st.lists(ints(0, 4), min_size=1, max_size=3))))
         if pat not in patterns:
             patterns.append(pat)
     return {'src': src, 'tgt': tgt, 'excl': excl, 'par': par, 'patterns': patterns}
@@ -58,12 +59,12 @@ def par_sensitive_spec(draw):
     """Settings whose implied parallel-connection limit depends on the existence pattern: an open-ended node next to a
     node carrying the largest finite degree, with a pattern in which that node is absent / overridden"""
     k = draw(st.sampled_from([3, 3, 3, 4, 2]))   # implied limit is never below 2
-    big = {'conns': sorted({draw(st.integers(0, k-1)), k}), 'rep': True}
-    open_ = {'min': draw(st.integers(0, 1)), 'rep': True}
+    big = {'conns': sorted({draw(ints(0, k-1)), k}), 'rep': True}
+    open_ = {'min': draw(ints(0, 1)), 'rep': True}
     side = draw(st.sampled_from(['src', 'tgt']))
     mine = [open_, big] if draw(st.booleans()) else [big, open_]
     i_big = mine.index(big)
-    other = [{'min': draw(st.integers(0, 1)), 'rep': True} for _ in range(draw(st.integers(1, 2)))]
+    other = [{'min': draw(ints(0, 1)), 'rep': True} for _ in range(draw(ints(1, 2)))]
     pat = {'src': {}, 'tgt': {}}
     pat[side][str(i_big)] = draw(st.sampled_from([[0], [0], [1], [0, 1]]))
     patterns = [{'src': {}, 'tgt': {}}, pat] if draw(st.booleans()) else [pat, {'src': {}, 'tgt': {}}]
@@ -155,49 +156,49 @@ def pattern_family_spec(draw, max_patterns=3):
     excl = []
     if fam == 'combining':
         src = [{'conns': [1], 'rep': rep}]
-        tgt = [{'conns': [0, 1], 'rep': draw(st.booleans())} for _ in range(draw(st.integers(2, 4)))]
+        tgt = [{'conns': [0, 1], 'rep': draw(st.booleans())} for _ in range(draw(ints(2, 4)))]
     elif fam == 'collapsed':
         src = [dict(draw(node_strategy()), rep=True)]
         tgt = [dict(draw(node_strategy()), rep=True)]
     elif fam == 'assigning':
         k = draw(st.sampled_from([0, 1, 2, 2, 3]))
-        m = draw(st.integers(0, 1))
+        m = draw(ints(0, 1))
         rep = draw(st.sampled_from([False, False, True]))
-        src = [{'min': k, 'rep': rep} for _ in range(draw(st.integers(1, 3)))]
-        tgt = [{'min': m, 'rep': rep} for _ in range(draw(st.integers(1, 3)))]
+        src = [{'min': k, 'rep': rep} for _ in range(draw(ints(1, 3)))]
+        tgt = [{'min': m, 'rep': rep} for _ in range(draw(ints(1, 3)))]
     elif fam == 'partitioning':
-        k = draw(st.integers(0, 2))
+        k = draw(ints(0, 2))
         tconn = draw(st.sampled_from([[1], [0, 1]]))
-        src = [{'min': k, 'rep': rep} for _ in range(draw(st.integers(1, 3)))]
-        tgt = [{'conns': list(tconn), 'rep': draw(st.booleans())} for _ in range(draw(st.integers(1, 4)))]
+        src = [{'min': k, 'rep': rep} for _ in range(draw(ints(1, 3)))]
+        tgt = [{'conns': list(tconn), 'rep': draw(st.booleans())} for _ in range(draw(ints(1, 4)))]
     elif fam == 'connecting':
-        n = draw(st.integers(2, 3))
+        n = draw(ints(2, 3))
         src = [{'min': 0, 'rep': False} for _ in range(n)]
         tgt = [{'min': 0, 'rep': False} for _ in range(n)]
         excl = [[i, i] for i in range(n)]
         if draw(st.booleans()):
             excl += [[i, j] for i in range(n) for j in range(n) if i > j]
     elif fam == 'permuting':
-        n = draw(st.integers(2, 4))
+        n = draw(ints(2, 4))
         src = [{'conns': [1], 'rep': rep} for _ in range(n)]
         tgt = [{'conns': [1], 'rep': rep} for _ in range(n)]
     elif fam == 'unordered':
-        n = draw(st.integers(2, 4))
-        src = [{'conns': [draw(st.integers(1, n))], 'rep': rep}]
+        n = draw(ints(2, 4))
+        src = [{'conns': [draw(ints(1, n))], 'rep': rep}]
         tgt = [{'conns': [0, 1], 'rep': draw(st.booleans())} for _ in range(n)]
     else:
-        n = draw(st.integers(2, 3))
-        src = [{'conns': [draw(st.integers(1, 3))], 'rep': True}]
+        n = draw(ints(2, 3))
+        src = [{'conns': [draw(ints(1, 3))], 'rep': True}]
         tgt = [{'min': 0, 'rep': True} for _ in range(n)]
-    if draw(st.integers(0, 3)) == 0:
+    if draw(ints(0, 3)) == 0:
         src, tgt = tgt, src
         excl = [[j, i] for i, j in excl]
     patterns = [{'src': {}, 'tgt': {}}]
-    for _ in range(draw(st.integers(0, max_patterns-1))):
+    for _ in range(draw(ints(0, max_patterns-1))):
         pat = {'src': {}, 'tgt': {}}
         for side, nodes in (('src', src), ('tgt', tgt)):
             for i in range(len(nodes)):
-                if draw(st.integers(0, 3)) == 0:
+                if draw(ints(0, 3)) == 0:
                     pat[side][str(i)] = [0]
         if pat not in patterns:
             patterns.append(pat)
